@@ -126,6 +126,28 @@ fn run_w<C: CellType>(prog: &str, envs_s: &str) -> String {
                 None => "none".into(),
             },
             "prodof" => opt_expr(regs[r(1)].prod_of(iv(2)), &envs),
+            // the same decompositions with the result kept in a register (s<op>:dst:src:var)
+            "sincof" => {
+                let e = regs[r(2)].inc_of(iv(3));
+                if let Some(x) = &e {
+                    regs[r(1)] = x.clone();
+                }
+                opt_expr(e, &envs)
+            }
+            "spincof" => match regs[r(2)].prod_inc_of(iv(3)) {
+                Some((e, m)) => {
+                    regs[r(1)] = e.clone();
+                    format!("{}*{}", full(&e, &envs), m.into_u64())
+                }
+                None => "none".into(),
+            },
+            "sprodof" => {
+                let e = regs[r(2)].prod_of(iv(3));
+                if let Some(x) = &e {
+                    regs[r(1)] = x.clone();
+                }
+                opt_expr(e, &envs)
+            }
             "cpart" => regs[r(1)].constant_part().into_u64().to_string(),
             "ident" => match regs[r(1)].identity() {
                 Some(v) => v.to_string(),
